@@ -1,5 +1,5 @@
 /*@harness
-{"tier":"quick","mode":"bounded(2 heart-beat objects, one round (tick), up to 1 set_heart_beat operation on arbitrary objects inside every heart_beat call)","tus":["src/backend.c"],"include_tu":true,"dfcc":false,
+{"tier":"quick","mode":"bounded(3 heart-beat objects, one round (tick), up to 2 set_heart_beat operations on arbitrary objects inside every heart_beat call)","tus":["src/backend.c"],"include_tu":true,"dfcc":false,
  "functions":["call_heart_beat","set_heart_beat"],
  "stub_out":["look_for_objects_to_swap"],
  "flags":["--bounds-check","--pointer-check"],"unwind":9,"timeout":900,
@@ -14,8 +14,10 @@
 #include "backend.c"          /* scratch copy of the real TU: the heart-beat list is file-static */
 #endif
 #include "vharness.h"
-#define NOBJ 2
-static object_t O[NOBJ]; static program_t PR[NOBJ];
+#define NOBJ 3
+/* separate objects (see C12): stores through a pointer phi over array elements are byte updates of the whole array */
+static object_t O0, O1, O2; static program_t PR0, PR1, PR2;
+static object_t *const OP[3] = {&O0, &O1, &O2}; static program_t *const PP[3] = {&PR0, &PR1, &PR2};
 static int G_calls[NOBJ];            /* heart_beat() invocations this round */
 static int G_disabled_at[NOBJ];      /* object was switched off (or destructed) during the round */
 static int G_enabled_whole[NOBJ];    /* still never touched by any set_heart_beat this round */
@@ -33,21 +35,21 @@ void *memmove(void *d, const void *s, size_t n) {          /* element-wise copy 
   for (size_t i = 0; i < n / sizeof(heart_beat_t) && i < 8; i++) dd[i] = ss[i];
   return d;
 }
-static int idx_of(object_t *ob) { return (int)(ob - O); }
+static int pidx(program_t *p) { return p == &PR0 ? 0 : (p == &PR1 ? 1 : (p == &PR2 ? 2 : -1)); }
 static void one_op(void) {
   V_DECL(int, op_obj); V_DECL(int, op_to);
   V_ASSUME(0 <= op_obj && op_obj < NOBJ && op_to >= -1 && op_to <= 3);
   G_enabled_whole[op_obj] = 0;
   if (op_to == 0) G_disabled_at[op_obj] = 1; else G_disabled_at[op_obj] = 0;
-  set_heart_beat(&O[op_obj], op_to);
+  set_heart_beat(op_obj == 0 ? &O0 : (op_obj == 1 ? &O1 : &O2), op_to);
 }
 void call_function(program_t *progp, int runtime_index, int num_args, svalue_t *ret) {
-  int k = (int)(progp - PR);
-  V_ASSERT(0 <= k && k < NOBJ && current_heart_beat == &O[k], "heart_beat() is called on the object whose turn it is");
-  V_ASSERT(O[k].flags & O_HEART_BEAT, "heart_beat() is only called on an object whose heart beat is enabled");
+  int k = pidx(progp);
+  V_ASSERT(0 <= k && k < NOBJ && current_heart_beat == OP[k], "heart_beat() is called on the object whose turn it is");
+  V_ASSERT(OP[k]->flags & O_HEART_BEAT, "heart_beat() is only called on an object whose heart beat is enabled");
   V_ASSERT(!G_disabled_at[k], "an object that switched its heart beat off (or was destructed) is not called again in this round");
   if (G_calls[k] < 10) G_calls[k]++;
-  V_DECL(int, nops); V_ASSUME(0 <= nops && nops <= 1);
+  V_DECL(int, nops); V_ASSUME(0 <= nops && nops <= 2);
   if (nops >= 1) one_op();
   if (nops >= 2) one_op();
   V_DECL(int, timer_fires); if (timer_fires) { heart_beat_flag = 1; G_truncated = 1; }
@@ -61,7 +63,7 @@ void h_heart_beat_round(void) {
   V_DECL(int, n0); V_ASSUME(0 <= n0 && n0 <= NOBJ);
   num_hb_objs = n0; num_hb_to_do = 0; heart_beat_index = 0; heart_beat_flag = 0;
   for (int k = 0; k < NOBJ; k++) {
-    O[k].prog = &PR[k]; PR[k].heart_beat = 0; O[k].flags = 0; G_enabled_whole[k] = 0;
+    OP[k]->prog = PP[k]; PP[k]->heart_beat = 0; OP[k]->flags = 0; G_enabled_whole[k] = 0;
   }
   /* the list holds the first n0 objects in a nondeterministic order without duplicates (here: a rotation) */
   V_DECL(int, rot); V_ASSUME(0 <= rot && rot < NOBJ);
@@ -69,8 +71,8 @@ void h_heart_beat_round(void) {
     int k = (i + rot) % NOBJ; V_ASSUME(k < n0 || 1);
     V_DECL(short, ticks); V_DECL(short, period); V_ASSUME(ticks >= 1 && ticks <= 3 && period >= 1 && period <= 3);
     k = (i + rot) % n0;
-    arr[i].ob = &O[k]; arr[i].heart_beat_ticks = ticks; arr[i].time_to_heart_beat = period;
-    O[k].flags |= O_HEART_BEAT; G_enabled_whole[k] = 1; G_due[k] = (ticks == 1);
+    arr[i].ob = OP[k]; arr[i].heart_beat_ticks = ticks; arr[i].time_to_heart_beat = period;
+    OP[k]->flags |= O_HEART_BEAT; G_enabled_whole[k] = 1; G_due[k] = (ticks == 1);
   }
   call_heart_beat();
   for (int k = 0; k < NOBJ; k++) {
@@ -81,7 +83,7 @@ void h_heart_beat_round(void) {
   V_ASSERT(heart_beat_index == 0 && num_hb_to_do == 0 && num_hb_objs >= 0 && num_hb_objs <= 8, "the round bookkeeping is reset and the list length stays in range");
   /* list/flag consistency after any surgery */
   V_DECL(int, g); V_ASSUME(0 <= g && g < NOBJ);
-  int cnt = 0; for (int i = 0; i < 8; i++) if (i < num_hb_objs && arr[i].ob == &O[g]) cnt++;
-  V_ASSERT(cnt == ((O[g].flags & O_HEART_BEAT) ? 1 : 0), "an object is in the list exactly once iff its heart-beat flag is set");
-  V_COVER(G_calls[0] == 1 && G_calls[1] == 1); V_COVER(G_truncated); V_COVER(n0 == 2 && num_hb_objs == 1);
+  int cnt = 0; for (int i = 0; i < 8; i++) if (i < num_hb_objs && arr[i].ob == OP[g]) cnt++;
+  V_ASSERT(cnt == ((OP[g]->flags & O_HEART_BEAT) ? 1 : 0), "an object is in the list exactly once iff its heart-beat flag is set");
+  V_COVER(G_calls[0] == 1 && G_calls[1] == 1 && G_calls[2] == 1); V_COVER(G_truncated); V_COVER(n0 == 3 && num_hb_objs == 1);
 }
